@@ -139,6 +139,9 @@ def alphabet():
         "Ne": (2, lambda k: p.Comparison(k[0], "!=", k[1])),
         "If": (3, lambda k: p.If(*k)), "CallFn": (1, lambda k: p.Call(k[0], (p.Variable("a"),))), "CallArg": (2, lambda k: p.Call(p.Variable("f"), tuple(k))),
         "CallKw": (2, lambda k: p.CallWithKwargs(p.Variable("f"), (k[0],), immutabledict({"kw": k[1]}))),
+        # several keywords, written in an order that is not the sorted one (the printer and the parser keep the order written)
+        "CallKw2": (3, lambda k: p.CallWithKwargs(p.Variable("f"), (k[0],), immutabledict({"zeta": k[1], "alpha": k[2]}))),
+        "CallKw3": (3, lambda k: p.CallWithKwargs(p.Variable("g"), (), immutabledict({"stop": k[0], "start": k[1], "Step": k[2]}))),
         "SubAgg": (1, lambda k: p.Subscript(k[0], p.Variable("a"))), "SubIdx": (1, lambda k: p.Subscript(p.Variable("g"), k[0])),
         "SubIdx2": (2, lambda k: p.Subscript(p.Variable("g"), tuple(k))), "Lookup": (1, lambda k: p.Lookup(k[0], "x")),
         "TupleArg": (2, lambda k: p.Call(p.Variable("f"), (tuple(k),))), "TupleIdx": (2, lambda k: p.Subscript(p.Variable("g"), (tuple(k), p.Variable("a")))),
